@@ -138,7 +138,9 @@ class Document(BlockToken):
 
     def __init__(self, lines):
         if isinstance(lines, str):
-            lines = lines.splitlines(keepends=True)
+            # a line ends with a line feed, a carriage return or both; str.splitlines() also splits at
+            # form feeds, U+0085, U+2028 and other characters that do not end a line of Markdown
+            lines = re.findall(r'[^\n\r]*(?:\r\n|\n|\r)|[^\n\r]+', lines)
         lines = [line if line.endswith('\n') else '{}\n'.format(line) for line in lines]
         self.footnotes = {}
         self.line_number = 1
